@@ -586,7 +586,11 @@ def c08_shapes(tier):
         shapes.append(('hx_pa_group_dup', [m, 0], 'c08/duplicate key, later-created handler defines it first (%d)' % m))
     for a in range(3):
         for b in range(10):
-            shapes.append(('hx_pa_group_keys', [a, b], 'c08/key forms/%d-%d' % (a, b)))
+            shapes.append(('hx_pa_group_keys', [a, b, 0], 'c08/key forms/%d-%d' % (a, b)))
+    # the same with group objects that pass other flag sets on to their member handlers / a third handler in between
+    for gmode in (1, 2, 4, 5, 6):
+        for a, b in ((0, 0), (1, 1), (2, 3), (2, 4), (0, 5), (2, 7), (1, 8), (0, 9)):
+            shapes.append(('hx_pa_group_keys', [a, b, gmode], 'c08/key forms/%d-%d/group mode %d' % (a, b, gmode)))
     shapes.append(('hx_pa_group_dup', [0, 0], 'c08/duplicate key short'))
     shapes.append(('hx_pa_group_dup', [1, 0], 'c08/duplicate key long'))
     shapes.append(('hx_pa_group_dup', [2, 0], 'c08/distinct keys'))
